@@ -81,6 +81,17 @@ REG = {
     technique='Lean 4 proof over a model regenerated from source + differential correspondence',
     ref='§5-C15'),
 }
+REG['C09'] = dict(
+    text='Lean 4 theorems over a model of _gen_logits / load_logits (one insertion-ordered dict with the two reserved keys): for '
+         'distinct, non-reserved line ids loading a saved page restores for every line exactly the saved logits, characters and '
+         'frame window whatever the target held; lines absent from the file are untouched (partial files, both directions); a '
+         'missing component is reported without the flag; dense reconstruction returns stored logits / the floor (row '
+         'normalisation: C16 real-analysis theorems). The two hypotheses are shown necessary by kernel-checked witnesses and are '
+         'recorded as known findings on the real code (duplicate ids; ids equal to a reserved key). Exact correspondence through '
+         'the real pickle files and bytes; end-to-end rebuild (PAGE XML + logits -> same greedy text and ALTO words) as oracle.',
+    note='Trusted: pickle and scipy.sparse round-trip the stored objects; Lean kernel + standard axioms.',
+    technique='Lean 4 proof (dict get/set algebra) + differential correspondence through real files',
+    ref='§5-C09')
 REG['C16'] = dict(
     text='Lean 4 theorems for every ordered field: per-character line confidences (CTC and transformer branch), letter '
          'confidences, the run-wise line confidence, medians and bag posteriors/confidence (C03) are in [0,1] for posteriors in '
